@@ -116,6 +116,34 @@ def run(ctx):
                                           {"spec": spec, "X": X, "step": si})
                         except Exception:
                             pass
+        # ---- oracle: without a reset function the winner is the oldest category of maximal activation among
+        #      those passing the vigilance test; recomputed from public kernel calls on the weights before the step
+        if not has_reset and cls not in ("GaussianART", "BayesianART", "FusionART"):
+            strict = mode in ("MT0", "MT~")
+            for si, (before, after, c, x) in enumerate(frames):
+                if not before:
+                    continue
+                try:
+                    with quiet():
+                        Ts, Ms = [], []
+                        for wb in before:
+                            t_, ch_ = m.category_choice(x, wb, params=m.params)
+                            mm_, _ = m.match_criterion(x, wb, params=m.params, cache=ch_)
+                            Ts.append(float(t_))
+                            Ms.append(float(mm_))
+                except Exception:
+                    break
+                rho_ = m.params["rho"]
+                ok_ = [k for k in range(len(before)) if not np.isnan(Ts[k]) and (Ms[k] > rho_ if strict else Ms[k] >= rho_)]
+                want = min(ok_, key=lambda k: (-Ts[k], k)) if ok_ else len(before)
+                if want != c:
+                    ctx.issue("violation", f"{cls}:not-best-vigilance-passing-category",
+                              f"step {si}: assigned {c}, but the oldest category of maximal activation among those passing "
+                              f"vigilance is {want} (activations {Ts}, match values {Ms}, rho {rho_}, mode {mode})",
+                              {"spec": spec, "X": X, "step": si, "mode": mode, "eps": eps})
+                    break
+                if len(ok_) >= 2 and sorted(Ts[k] for k in ok_)[-1] == sorted(Ts[k] for k in ok_)[-2]:
+                    cov.hit("oracle:tie-among-qualifying")
         # ---- model tie: one `search` line per step that had categories
         for si, st in enumerate(rec.steps):
             if st.ncat == 0:
